@@ -314,7 +314,7 @@ def run(ctx):
     if tier == "thorough":
         # longer strings: the two action properties (Variant is the termination argument itself)
         for cfg in ("FrontEnd_cursor5", "FrontEnd_cursor8"):
-            r = tlc(ctx, "FrontEnd", cfg, timeout=3000, extra=("-maxSetSize", "10000000"))
+            r = tlc(ctx, "FrontEnd", cfg, timeout=3000)
             if r.violated:
                 raise InfraError("FrontEnd cursor machine (%s): %s violated" % (cfg, r.violated))
             model[cfg] = dict(states=r.distinct, transitions=r.generated)
@@ -329,8 +329,7 @@ def run(ctx):
     # ---- inputs
     items = []
     r = tlc(ctx, "FrontEnd", "FrontEnd_enum4" if (tier == "quick" and hooked) else
-            "FrontEnd_enum5" if tier == "thorough" and hooked else "FrontEnd_enum3", timeout=3000,
-            extra=("-maxSetSize", "10000000"))
+            "FrontEnd_enum5" if tier == "thorough" and hooked else "FrontEnd_enum3", timeout=3000)
     enum_items = concretise_enum(r.records)
     seen = set()
     for it in enum_items:
